@@ -59,6 +59,8 @@ def cases(ctx):
         yield 'rand', {'i': i}
         if i % 3 == 0:
             yield 'aln', {'i': i}
+        if i % 2 == 0:
+            yield 'tokmut', {'i': i}
         if i % 10 == 0:
             yield 'debuglog', {'i': i}
 
@@ -89,6 +91,21 @@ def oracle(ctx, kind, p):
         ctx.case(s, nt >= 2)
         ctx.count('tokens', nt)
         ctx.count('alignment_like')
+    elif kind == 'tokmut':
+        # a well-formed, indented graph text with one lexically significant character inserted
+        # exactly at a token start (or end): '#' there starts a comment that runs to the end of the
+        # line whatever the line looks like, '"' opens a string, ...
+        import penman
+        rng = ctx.rng('tokmut', p['i'])
+        t = T.rand_tree(rng, allow_empty_target=True, n_nodes=rng.choice([2, 3, 4, 5]))
+        s = penman.format(penman.Tree(t), indent=rng.choice([-1, -1, 2, 0, None]))
+        s = S.insert_at_token_boundary(rng, s, rng.choice([1, 1, 2]))
+        for mode in (False, True):
+            ctx.current = ['str', {'s': s}]
+            nt = _text.check_lexer(ctx, s, as_lines=mode)
+        ctx.case(('tokmut', s), nt >= 2)
+        ctx.count('tokens', nt)
+        ctx.count('token_start_insertions')
     elif kind == 'debuglog':
         # the token stream must not depend on the logging configuration
         import logging
